@@ -202,6 +202,9 @@ def gen_interaction(rng, iid, opts, cfgs):
             and 'cancel_at' not in ia['sub']:
         ia['api'] = 'awaitable'
         ia['sub'] = {'initial_n': ia['sub'].get('initial_n', MAXN)}
+        if kind == 'stream' and rng.random() < 0.3 and ia['resp'].get('count', 0) > 0 and ia['resp'].get('error_at') is None:
+            # take-first-N with the collector; N == the stream's length (last element flagged complete) is the edge
+            ia['limit_count'] = _pick(rng, [(2, ia['resp']['count']), (2, rng.randint(1, ia['resp']['count']))])
     if rng.random() < opts.get('hdelay', 0.15) and kind in ('rr', 'stream', 'channel'):
         ia['resp']['hdelay'] = _pick(rng, [(1, ['hops', rng.randint(1, 4)]), (1, ['time', _pick(rng, [(1, 0.0005), (1, 0.005)])])])
     return ia
@@ -268,6 +271,12 @@ def gen_core(seed, opts=None):
         if est > 100000 and pol.get('chunk') == 'rand':
             # a megabyte trickled in 16-byte reads only runs into the iteration cap (nothing is judged then)
             pol['chunk_max'] = max(pol.get('chunk_max', 64), est // 1500)
+    if rng.random() < opts.get('empty_requests', 0.0):
+        # one channel (with a requester publisher) whose request payload is empty: the elements follow in PAYLOAD frames
+        cands = [ia for ia in plan['interactions'] if ia['kind'] == 'channel' and ia.get('pub') and ia.get('api') != 'awaitable']
+        if cands:
+            cands[0]['req'] = {'dlen': 0, 'mlen': None}
+            cands[0]['empty_req'] = True
     if opts.get('burst') and rng.random() < 0.5:
         for ia in plan['interactions']:
             ia['at'] = 0.0
